@@ -88,6 +88,7 @@ def judge_exp(fa, part, dtname, x):
         add_violation(part, f"exponent:{dtname}:reconstruction>1ulp:{mag}", f"x={x!r}: k={k!r} r={r!r} c={c!r}: k ln2 + (r+c) rounds to {back!r}, {d} ULP from x", case)
     if k != 0:
         part["nontrivial"] += 1
+    return (k, r, c)
 
 
 def judge_trig(fa, part, dtname, x):
@@ -139,6 +140,135 @@ def judge_trig(fa, part, dtname, x):
         add_violation(part, f"trig:{dtname}:remainder>{lim}ulp:{tiny}", f"x={x!r}: k={k!r} r+t={float(fr(r) + fr(tt))!r} true remainder {float(rem)!r}: {d} ULP", case)
     if N != 0:
         part["nontrivial"] += 1
+    return (k, r, tt)
+
+
+# ------------------------------------------------------------------ other routes to the same functions
+# (a) the scalar route above takes the `isinstance(x, numpy scalar)` shortcut of the trigonometric reduction; arrays and
+#     traced expressions go through the type-generic path (all three implementations + select on `largest`).
+# (b) arrays through a NumpyContext, (c) the function traced with a Context, rewritten for NumPy and exec'd.
+# Both are compared bit for bit with the scalar route (which the oracle judges), element by element.
+
+_TRACED = {}
+
+
+def traced(fa, which, dtname):
+    key = (which, dtname)
+    if key not in _TRACED:
+        from mc.harness import quiet
+
+        fpa = fa.floating_point_algorithms
+        fn = fpa.argument_reduction_exponent if which == "exp" else fpa.argument_reduction_trigonometric
+
+        def f(ctx, x):
+            return fn(ctx, x)
+
+        try:
+            with quiet():
+                ctx = fa.Context(paths=[fa.algorithms])
+                g = ctx.trace(f, f"x:{dtname}").rewrite(fa.targets.numpy, fa.rewrite)
+                src = g.tostring(fa.targets.numpy, debug=0)
+                import sys as _sys
+                import warnings as _warnings
+
+                ns = dict(sys=_sys, numpy=np, make_complex=fa.utils.make_complex, finfo_float16=np.finfo(np.float16), finfo_float32=np.finfo(np.float32), finfo_float64=np.finfo(np.float64), warnings=_warnings)
+                exec(compile(src, "<emitted>", "exec"), ns)
+                _TRACED[key] = ns["f"]
+        except Exception as e:  # the traced route is not available for this function/dtype: counted, not judged
+            _TRACED[key] = e
+    return _TRACED[key]
+
+
+def same_bits(a, b):
+    a, b = np.asarray(a), np.asarray(b)
+    return a.dtype == b.dtype and (a.tobytes() == b.tobytes() or bool(np.isnan(a) and np.isnan(b)))
+
+
+def compare_routes(fa, part, dtname, which, xs, scalar_results):
+    """xs: list of scalars; scalar_results: list of tuples (or None) from the scalar route."""
+    t = DT[dtname]
+    fpa = fa.floating_point_algorithms
+    fn = fpa.argument_reduction_exponent if which == "exp" else fpa.argument_reduction_trigonometric
+    label = "exponent" if which == "exp" else "trig"
+    routes = []
+    # 0-d arrays (the functions convert multiword items with float(), so only 0-d arrays are accepted); every 3rd point
+    sub = list(range(0, len(xs), 3))
+    ks, rs, cs = [], [], []
+    ctx0 = fa.utils.NumpyContext(t)
+    try:
+        with np.errstate(all="ignore"):
+            for i in sub:
+                k_, r_, c_ = fn(ctx0, np.array(xs[i], dtype=t))
+                ks.append(k_), rs.append(r_), cs.append(c_)
+        routes.append(("0-d-array", sub, [ks, rs, cs]))
+    except Exception as e:
+        add_violation(part, f"{label}:{dtname}:0-d-array-route-raises", f"{fn.__name__}(NumpyContext, 0-d array {xs[sub[len(ks)]]!r}) raised {type(e).__name__}: {e}", {"kind": which, "dtype": dtname, "x": float(xs[sub[len(ks)]]).hex(), "route": "0-d-array"})
+    fT = traced(fa, which, dtname)
+    if isinstance(fT, Exception):
+        bump(part, f"traced_route_unavailable:{label}:{dtname}:{type(fT).__name__}")
+    else:
+        try:
+            with np.errstate(all="ignore"):
+                out = fT(np.array(xs, dtype=t))
+            routes.append(("traced", list(range(len(xs))), [np.broadcast_to(np.asarray(o), (len(xs),)) for o in out]))
+        except Exception as e:
+            add_violation(part, f"{label}:{dtname}:traced-route-raises", f"emitted NumPy code of {fn.__name__} raised {type(e).__name__}: {e}", {"kind": which, "dtype": dtname, "x": float(xs[0]).hex(), "route": "traced"})
+    for rname, idx, outs in routes:
+        n_cmp = 0
+        for j, i in enumerate(idx):
+            sr = scalar_results[i]
+            if sr is None:
+                continue
+            part["evaluations"] += 1
+            n_cmp += 1
+            got = tuple(o[j] for o in outs)
+            # k is compared by value (the routes may deliver it in different integer/float types), r and c/t bit for bit
+            ok = float(got[0]) == float(sr[0]) and np.asarray(got[1]).dtype == np.dtype(t) and same_bits(t(got[1]), sr[1]) and same_bits(t(got[2]), sr[2])
+            if not ok:
+                add_violation(part, f"{label}:{dtname}:{rname}-route-differs-from-scalar-route", f"x={xs[i]!r}: {rname} route gives (k, r, c/t) = {got}, scalar route {sr}", {"kind": which, "dtype": dtname, "x": float(xs[i]).hex(), "route": rname})
+                break
+        bump(part, f"route_compared:{rname}", n_cmp)
+
+
+def w_shared_context(task):
+    """histories on ONE NumpyContext: reductions of several float types in sequence; every result must equal the
+    result obtained with a fresh context (no state carried from one request to the next)."""
+    fa = setup_repo_import()
+    part = new_part()
+    fpa = fa.floating_point_algorithms
+    pts = [0.4, 1.0, -3.0, 10.0, -10.5, 2.5, 0.001, -7.75]
+    for which, fn in (("exp", fpa.argument_reduction_exponent), ("trig", fpa.argument_reduction_trigonometric)):
+        label = "exponent" if which == "exp" else "trig"
+        for d0 in ("float16", "float32", "float64"):
+            for seq in task["seqs"]:
+                ctx = fa.utils.NumpyContext(DT[d0])
+                for step, dtname in enumerate(seq):
+                    t = DT[dtname]
+                    bad = False
+                    for mode in ("scalar", "0-d-array"):
+                        part["evaluations"] += 1
+                        try:
+                            with np.errstate(all="ignore"):
+                                if mode == "scalar":
+                                    got = [fn(ctx, t(v)) for v in pts]
+                                    ref = [fn(fa.utils.NumpyContext(DT[d0]), t(v)) for v in pts]
+                                else:
+                                    got = [fn(ctx, np.array(v, dtype=t)) for v in pts]
+                                    ref = [fn(fa.utils.NumpyContext(DT[d0]), np.array(v, dtype=t)) for v in pts]
+                        except Exception as e:
+                            bump(part, f"shared_context_raises:{type(e).__name__}")
+                            continue
+                        same = all(np.asarray(a).tobytes() == np.asarray(b).tobytes() for g_, r_ in zip(got, ref) for a, b in zip(g_, r_))
+                        if step > 0:
+                            part["nontrivial"] += 1
+                        if not same:
+                            add_violation(part, f"{label}:shared-context:{dtname}-after-{'+'.join(seq[:step]) or 'nothing'}:differs-from-fresh-context", f"NumpyContext({d0}) used for {seq[:step + 1]} ({mode} inputs): results for {dtname} differ from a fresh context: {got[0]} vs {ref[0]}", {"kind": "shared", "which": which, "d0": d0, "seq": list(seq)})
+                            bad = True
+                            break
+                    if bad:
+                        break
+    part["samples"].append({"shared_context_sequences": [list(s) for s in task["seqs"][:2]]})
+    return part
 
 
 def hard_cases(dtname, which, seed, per_binade=3, estride=1):
@@ -190,14 +320,20 @@ def w_points(task):
     t = DT[dtname]
     xs = np.array(task["bits"], dtype=np.uint64).astype(FMT[dtname]["ui"]).view(t)
     dom_e, dom_t = domain(dtname, "exp"), domain(dtname, "trig")
+    got = {"exp": ([], []), "trig": ([], [])}
     for x in xs:
         if not np.isfinite(x):
             continue
         ax = abs(float(x))
         if "exp" in task["which"] and ax < dom_e:
-            judge_exp(fa, part, dtname, x)
+            got["exp"][0].append(x)
+            got["exp"][1].append(judge_exp(fa, part, dtname, x))
         if "trig" in task["which"] and ax <= dom_t:
-            judge_trig(fa, part, dtname, x)
+            got["trig"][0].append(x)
+            got["trig"][1].append(judge_trig(fa, part, dtname, x))
+    for which, (pts, res) in got.items():
+        if pts:
+            compare_routes(fa, part, dtname, which, pts, res)
     if len(xs):
         part["samples"].append({"dtype": dtname, "which": task["which"], "x0": float(xs[0]).hex(), "n": int(len(xs))})
     return part
@@ -253,6 +389,11 @@ def run(run):
             tasks.append(dict(dtype=dtname, bits=[int(b) for b in be[i::nsh]], which=["exp", "trig"]))
             tasks.append(dict(dtype=dtname, bits=[int(b) for b in bt[i::nsh]], which=["trig", "exp"]))
     run.map(MOD, "w_points", tasks)
+    import itertools
+
+    dts = ("float16", "float32", "float64")
+    seqs = [list(p) for n in (2, 3) for p in itertools.product(dts, repeat=n)]
+    run.map(MOD, "w_shared_context", [dict(seqs=seqs[i::12]) for i in range(12)])
     run.rule = (
         "every finite float16 in the stated domains; float32/float64: all-binade mantissa lattice, complete +-W-ULP neighbourhoods of k*ln2 and "
         "(k+1/2)*ln2 for every k of the domain, of k*pi/2 and (k+1/2)*pi/2 for k < K, of pi/4, and continued-fraction hard cases (mantissas "
@@ -266,7 +407,12 @@ def run(run):
 def replay(case):
     fa = setup_repo_import()
     part = new_part()
+    if case.get("kind") == "shared":
+        part = w_shared_context(dict(seqs=[case["seq"]]))
+        return [(v["sig"], v["msg"]) for v in part["violations"]]
     t = DT[case["dtype"]]
     x = t(float.fromhex(case["x"]))
-    (judge_exp if case["kind"] == "exp" else judge_trig)(fa, part, case["dtype"], x)
+    res = (judge_exp if case["kind"] == "exp" else judge_trig)(fa, part, case["dtype"], x)
+    if case.get("route"):
+        compare_routes(fa, part, case["dtype"], case["kind"], [x], [res])
     return [(v["sig"], v["msg"]) for v in part["violations"]]
